@@ -58,7 +58,7 @@ pub struct Sink {
     pub ops: u64,
     /// when set, every finished world's schedule is kept in execution order (run-level replay)
     pub record: bool,
-    pub histories: Vec<(Vec<Value>, Vec<(String, String)>)>,
+    pub histories: Vec<(Vec<Value>, Vec<(String, String, String)>)>,
     /// set when the sink came back from a worker process: the finished digest
     pub digest_done: Option<Vec<u8>>,
 }
@@ -121,8 +121,12 @@ impl Sink {
         }
     }
     pub fn done(&mut self, w: World) {
+        if let Some(v) = JOURNAL_CUM.lock().unwrap().as_mut() {
+            v.extend(w.history.iter().cloned());
+            v.push(json!({"op":"world.reset"}));
+        }
         if self.record {
-            let v: Vec<(String, String)> = w.violations.iter().map(|v| (v.property.clone(), v.oracle.clone())).collect();
+            let v: Vec<(String, String, String)> = w.violations.iter().map(|v| (v.property.clone(), v.oracle.clone(), v.key.to_string())).collect();
             self.histories.push((w.history.clone(), v));
         }
         self.worlds += 1;
@@ -208,6 +212,19 @@ pub fn set_journal_property(p: &str) {
     *JOURNAL_PROP.lock().unwrap() = p.to_string();
 }
 
+/// Cumulative journal: everything executed so far in this process (worlds separated by
+/// `world.reset`, runs by `thread.reset`) precedes the in-flight world in the journal file, so that
+/// the file reproduces a hang that needs what earlier runs left behind.
+static JOURNAL_CUM: Mutex<Option<Vec<Value>>> = Mutex::new(None);
+pub fn journal_cumulative() {
+    *JOURNAL_CUM.lock().unwrap() = Some(vec![]);
+}
+pub fn journal_mark(op: Value) {
+    if let Some(v) = JOURNAL_CUM.lock().unwrap().as_mut() {
+        v.push(op);
+    }
+}
+
 pub fn set_journal(p: Option<PathBuf>) {
     *JOURNAL_PATH.lock().unwrap() = p;
 }
@@ -219,7 +236,8 @@ pub fn journal(history: &[Value], op: &Value) {
     WATCH.lock().unwrap().insert(id, (Instant::now(), run));
     let jp = JOURNAL_PATH.lock().unwrap().clone();
     if let Some(p) = jp {
-        let mut sched: Vec<Value> = history.to_vec();
+        let mut sched: Vec<Value> = JOURNAL_CUM.lock().unwrap().clone().unwrap_or_default();
+        sched.extend(history.iter().cloned());
         sched.push(op.clone());
         let prop = JOURNAL_PROP.lock().unwrap().clone();
         let doc = json!({"format": 1, "inflight": true, "property": prop, "oracle": "outcome-class (in-flight op did not return)", "schedule": sched});
@@ -236,6 +254,14 @@ pub fn journal(history: &[Value], op: &Value) {
 pub fn watch_exempt() {
     let id = MY_WATCH_ID.with(|i| *i);
     WATCH.lock().unwrap().remove(&id);
+}
+
+/// The run this thread works for (a `par` caller thread inherits it from the thread that runs the op).
+pub fn current_run() -> usize {
+    CUR_RUN.with(|c| c.get())
+}
+pub fn set_current_run(r: usize) {
+    CUR_RUN.with(|c| c.set(r));
 }
 
 /// Re-arm the watchdog from inside a compound op (one library call is about to start).
@@ -312,10 +338,10 @@ pub fn run_one_rec(f: RunFn, seed: u64, prop: &str, tier: Tier, i: usize, record
 /// The same, computed by a fresh child process (`gmsim record ...`): the parent may by now hold
 /// library state left by confirmation or minimisation attempts, and a generator's choices depend
 /// on what the library answers.
-pub fn recorded_schedule(level: &str, seed: u64, prop: &str, tier: Tier, run: usize, n: usize, oracle: &str) -> Option<Vec<Value>> {
+pub fn recorded_schedule(level: &str, seed: u64, prop: &str, tier: Tier, run: usize, n: usize, oracle: &str, key: &Value) -> Option<Vec<Value>> {
     let exe = std::env::current_exe().ok()?;
     let out = std::process::Command::new(exe)
-        .args(["record", level, prop, tier.name(), &seed.to_string(), &run.to_string(), &n.to_string(), oracle])
+        .args(["record", level, prop, tier.name(), &seed.to_string(), &run.to_string(), &n.to_string(), oracle, &key.to_string()])
         .stderr(std::process::Stdio::null())
         .output()
         .ok()?;
@@ -323,12 +349,12 @@ pub fn recorded_schedule(level: &str, seed: u64, prop: &str, tier: Tier, run: us
     v.as_array().cloned()
 }
 
-pub fn run_level_schedule(f: RunFn, seed: u64, prop: &str, tier: Tier, i: usize, oracle: &str) -> Option<Vec<Value>> {
+pub fn run_level_schedule(f: RunFn, seed: u64, prop: &str, tier: Tier, i: usize, oracle: &str, key: &str) -> Option<Vec<Value>> {
     let sink = run_one_rec(f, seed, prop, tier, i, true);
     let mut out = vec![];
     for (h, v) in sink.histories {
         out.extend(h);
-        if v.iter().any(|(p, o)| p == prop && o == oracle) {
+        if v.iter().any(|(p, o, k)| p == prop && o == oracle && (key.is_empty() || k == key)) {
             return Some(out);
         }
         out.push(json!({"op":"world.reset"}));
@@ -491,7 +517,7 @@ pub fn run_all(f: RunFn, iso: IsoFn, seed: u64, prop: &str, tier: Tier, runs: us
 /// Everything worker `run mod n` executed up to and including `run`, as one schedule: runs separated
 /// by `thread.reset` (each run has its own thread), worlds by `world.reset`. For a violation that
 /// depends on state the library kept PROCESS-wide from earlier runs.
-pub fn worker_level_schedule(f: RunFn, iso: IsoFn, seed: u64, prop: &str, tier: Tier, run: usize, n: usize, oracle: &str) -> Option<Vec<Value>> {
+pub fn worker_level_schedule(f: RunFn, iso: IsoFn, seed: u64, prop: &str, tier: Tier, run: usize, n: usize, oracle: &str, key: &str) -> Option<Vec<Value>> {
     let mut out = vec![];
     // an isolated run had a process of its own
     let mut r = if iso(tier, run) { run } else { run % n };
@@ -503,7 +529,7 @@ pub fn worker_level_schedule(f: RunFn, iso: IsoFn, seed: u64, prop: &str, tier: 
         let sink = run_one_rec(f, seed, prop, tier, r, true);
         for (h, v) in sink.histories {
             out.extend(h);
-            if r == run && v.iter().any(|(p, o)| p == prop && o == oracle) {
+            if r == run && v.iter().any(|(p, o, k)| p == prop && o == oracle && (key.is_empty() || k == key)) {
                 return Some(out);
             }
             out.push(json!({"op":"world.reset"}));
